@@ -18,6 +18,8 @@ import (
 	"runtime"
 	"strings"
 	"sync"
+	"sync/atomic"
+	"time"
 
 	gonumblas "gonum.org/v1/gonum/blas/gonum"
 	"gorgonia.org/tensor"
@@ -31,6 +33,32 @@ func init() {
 		}
 		r, err := tensor.Dot(w.ts[atoi(f[1])], w.ts[atoi(f[2])], o...)
 		return w.ret(r, err)
+	}
+	// keepdrop:<t> : take a row-range view and a clone of tensor t, keep what their Shape() and
+	// Strides() return (the caller may hold these after it has let go of the tensors), drop the
+	// tensors;  gc : two collection cycles and a pause, so that anything the library hangs on
+	// garbage (finalizers) runs.  What was kept must stay as it was (checked after every step).
+	progOps["keepdrop"] = func(w *world, f []string) string {
+		t := w.ts[atoi(f[1])]
+		keep := func(x []int) {
+			if len(x) > 0 {
+				w.held = append(w.held, [2][]int{x, append([]int(nil), x...)})
+			}
+		}
+		if v, err := t.Slice(parseSlices("0.1.1")...); err == nil {
+			keep([]int(v.Shape()))
+			keep(v.Strides())
+		}
+		c := t.Clone().(*tensor.Dense)
+		keep([]int(c.Shape()))
+		keep(c.Strides())
+		return "ok"
+	}
+	progOps["gc"] = func(w *world, f []string) string {
+		runtime.GC()
+		runtime.GC()
+		time.Sleep(2 * time.Millisecond)
+		return "ok"
 	}
 	progOps["fmt"] = func(w *world, f []string) string {
 		s := fmt.Sprintf("%v", w.ts[atoi(f[1])])
@@ -72,7 +100,14 @@ func runShared(dt string, shared []*tensor.Dense, prog string, yield bool) (out 
 			out = append(out, "panic")
 			break
 		}
-		out = append(out, st+w.obsAll()+probe(w))
+		held := ""
+		for _, h := range w.held {
+			if fmt.Sprint(h[0]) != fmt.Sprint(h[1]) {
+				held = " !held-metadata-changed"
+				heldChanged.Store(true)
+			}
+		}
+		out = append(out, st+w.obsAll()+probe(w)+held)
 		if yield {
 			runtime.Gosched()
 		}
@@ -97,6 +132,8 @@ func probe(w *world) string {
 	}
 	return sb.String()
 }
+
+var heldChanged atomic.Bool
 
 func runConc(a []string) string {
 	procs, dt, sprog := atoi(a[1]), a[2], a[3]
@@ -143,6 +180,12 @@ func runConc(a []string) string {
 	}
 	var sb strings.Builder
 	fmt.Fprintf(&sb, "races=%d", races)
+	if heldChanged.Load() {
+		// shape/strides lists a caller still held were rewritten (in the concurrent run or in the
+		// sequential one): reported whatever the comparison of the two says
+		defer func() { heldChanged.Store(false) }()
+		sb.WriteString(" held=changed")
+	}
 	for i := range gprogs {
 		res := "same"
 		for k := range oracle[i] {
@@ -246,6 +289,21 @@ func concOp(r *rng, family string, priv int) string {
 			// to the pool twice would be given to two tensors
 			return []string{"dot:4:3:both.6.7", "dot:4:3:reuse.6", "dot:4:3:incr.7", fmt.Sprintf("slice:%d:0.1.1", priv), fmt.Sprintf("reduce:sum:4:%d", r.intn(3))}[r.intn(5)]
 		}
+	case "churn":
+		// short-lived tensors whose metadata lists the caller keeps, garbage collections in between,
+		// and ordinary allocations that would pick up anything recycled too early
+		switch r.intn(6) {
+		case 0, 1:
+			return fmt.Sprintf("keepdrop:%d", []int{0, 2, priv}[r.intn(3)])
+		case 2:
+			return "gc"
+		case 3:
+			return fmt.Sprintf("bin:add:%d:%d:safe", sq, priv)
+		case 4:
+			return fmt.Sprintf("slice:%d:0.2.1/_", sq)
+		default:
+			return fmt.Sprintf("clone:%d", r.intn(5))
+		}
 	case "dotvm":
 		// vector . matrix: Dot transposes its matrix operand in place and takes it back afterwards
 		if r.intn(2) == 0 {
@@ -312,7 +370,7 @@ func concOp(r *rng, family string, priv int) string {
 }
 
 // (arith first: the first racing goroutines of the process then meet the lazily initialised scalar pools)
-var concFamilies = []string{"arith", "access", "reduce", "lin", "dot", "dotvm", "tmul", "shapeops", "format", "errpath", "blasuse", "blas", "private"}
+var concFamilies = []string{"arith", "access", "reduce", "lin", "dot", "dotvm", "tmul", "churn", "shapeops", "format", "errpath", "blasuse", "blas", "private"}
 
 func genC18(tier string, r *rng, emit func(string)) {
 	reps := 6
